@@ -565,6 +565,20 @@ def main(tier, seed):
         "deep-nonTail-recursion": "local function f(n) return 1 + f(n + 1) end return f(1)",
         "huge-table-literal-loop": "local t = {} for i = 1, 1e12 do t[1] = i end",
     }
+    try:
+        mem_limited = "set_memory_limit(" in open(os.path.join(REPO, "src", "storage", "lua_engine.rs"), encoding="utf-8", errors="replace").read()
+    except OSError:
+        mem_limited = False
+    rep.extra["script_memory_limited"] = mem_limited
+    if mem_limited:
+        # scripts that eat memory (only sent when the source sets a Lua memory limit; always on servers with a capped address space)
+        RUNAWAY.update({
+            "memory-bomb": "local t={} while true do t[#t+1]=string.rep('x',1000000)..#t end",
+            "doubling-concat": "local s='x' while true do s=s..s end",
+            "table-growth": "local t={} local i=0 while true do i=i+1 t[i]={i,i,i} end",
+            "expensive-c-calls": "while true do string.rep('x', 3e8) end",
+            "bomb-under-pcall": "while true do pcall(function() local t={} while true do t[#t+1]=string.rep('y',1000000)..#t end end) end",
+        })
     if limit_ms > 0:
         import concurrent.futures
         wait_s = limit_ms / 1000.0 + 6.0
